@@ -168,7 +168,20 @@ func scTransportChannel(r *Run) {
 		key := newX25519()
 		leaf := SelfSigned(key.Public, certs.RawStringName(magicName+"-client"))
 		secrets = append(secrets, append([]byte(nil), key.Public[:]...))
-		tc := NewTClient(r, n, srv, ClientOpts{Addr: Addr(byte(10+i), 4000+i), Hidden: hidden, Key: key, Leaf: leaf})
+		copts := ClientOpts{Addr: Addr(byte(10+i), 4000+i), Hidden: hidden, Key: key, Leaf: leaf}
+		if r.Intn("hsbound", 4) == 0 {
+			// handshake bounded by an absolute deadline that the session outlives
+			dl := time.Now().Add(2 * time.Second)
+			both := r.Intn("hsbound", 2) == 0
+			copts.Mutate = func(cfg *transport.ClientConfig) {
+				cfg.HSDeadline = dl
+				cfg.HSTimeout = 0
+				if both {
+					cfg.HSTimeout = 5 * time.Second
+				}
+			}
+		}
+		tc := NewTClient(r, n, srv, copts)
 		if err := tc.C.Handshake(); err != nil {
 			r.Violate("C03/nofault/handshake-failed", "honest handshake on a faithful network failed: %v", err)
 			return
